@@ -6,7 +6,7 @@ use crate::dlt::*;
 use byteorder::{BigEndian, LittleEndian};
 use core::convert::TryFrom;
 
-fn same_kind(k: &TypeInfoKind, r: RefKind) -> bool {
+pub fn same_kind(k: &TypeInfoKind, r: RefKind) -> bool {
     fn tl(t: TypeLength) -> u8 {
         match t {
             TypeLength::BitLength8 => 1,
@@ -35,7 +35,7 @@ fn same_kind(k: &TypeInfoKind, r: RefKind) -> bool {
     }
 }
 
-fn same_coding(c: &StringCoding, scod: u8) -> bool {
+pub fn same_coding(c: &StringCoding, scod: u8) -> bool {
     match c {
         StringCoding::ASCII => scod == 0,
         StringCoding::UTF8 => scod == 1,
@@ -70,19 +70,19 @@ fn c14_type_info_all() {
             assert!(w2 & ref_unused_mask(r.kind) == 0);
             // the encoding decodes to the same description
             match TypeInfo::try_from(w2) {
-                Ok(ti2) => assert!(ti2 == *ti),
-                Err(_) => assert!(false),
+                Ok(ti2) => { assert!(ti2 == *ti); }
+                Err(_) => { assert!(false); }
             }
         }
         // accepted exactly for words naming one supported kind with a supported width
-        (Ok(_), None) => assert!(false),
-        (Err(_), Some(_)) => assert!(false),
+        (Ok(_), None) => { assert!(false); }
+        (Err(_), Some(_)) => { assert!(false); }
     }
     kani::cover!(real.is_ok());
     kani::cover!(real.is_err());
 }
 
-fn ref_msin_ok(m: u8, t: &MessageType) -> bool {
+pub fn ref_msin_ok(m: u8, t: &MessageType) -> bool {
     let mstp = (m >> 1) & 7;
     let mtin = m >> 4;
     match t {
@@ -146,7 +146,7 @@ fn c14_msin_all() {
             assert!(back & 1 == 0);
             assert!((back | (m & 1)) == m);
         }
-        Err(_) => assert!(false),
+        Err(_) => { assert!(false); }
     }
 }
 
@@ -197,6 +197,6 @@ fn c14_htyp_parse_all() {
             assert!(hdr.header_type_byte() == h);
             assert!(rest.len() == 16 - ref_std_header_len(h) as usize);
         }
-        Err(_) => assert!(false),
+        Err(_) => { assert!(false); }
     }
 }
